@@ -26,15 +26,15 @@ theorem parse_written (typ flags stream : Nat) (p : Bytes)
 
 
 /-- frame values within the ranges the setters document. PUSH_PROMISE is excluded (finding F14: the
-writer has no promised-id field); SETTINGS values that are zero where zero is meaningful are excluded
-(finding F35: `Encode` cannot express them). -/
+writer has no promised-id field). SETTINGS values of zero are in (finding F35, repaired: the setters mark
+a value as present and `Encode` writes what is present). -/
 def Buildable : WFrame → Prop
   | .data _ b => WF b
   | .headers _ _ prio raw => WF raw ∧ (∀ d w, prio = some (d, w) → d < 2 ^ 31 ∧ w < 256)
   | .priority dep w => dep < 2 ^ 31 ∧ w < 256
   | .rstStream c => c < 2 ^ 32
   | .settings ack ts _ ms ws fs hs =>
-    ack = true ∨ (ts ≠ 0 ∧ ts < 2 ^ 32 ∧ ms ≠ 0 ∧ ms < 2 ^ 32 ∧ ws ≠ 0 ∧ ws < 2 ^ 31 ∧ 2 ^ 14 ≤ fs ∧ fs < 2 ^ 24 ∧ hs < 2 ^ 32)
+    ack = true ∨ (ts < 2 ^ 32 ∧ ms < 2 ^ 32 ∧ ws < 2 ^ 31 ∧ 2 ^ 14 ≤ fs ∧ fs < 2 ^ 24 ∧ hs < 2 ^ 32)
   | .pushPromise _ => False
   | .ping _ d => d.length = 8
   | .goAway last code _ => last < 2 ^ 31 ∧ code < 2 ^ 32
@@ -116,7 +116,7 @@ theorem body_cont (eh : Bool) (raw : Bytes) (pad : Nat) :
 
 
 theorem body_settings (ack push : Bool) (ts ms ws fs hs pad : Nat)
-    (hB : ack = true ∨ (ts ≠ 0 ∧ ts < 2 ^ 32 ∧ ms ≠ 0 ∧ ms < 2 ^ 32 ∧ ws ≠ 0 ∧ ws < 2 ^ 31 ∧ 2 ^ 14 ≤ fs ∧ fs < 2 ^ 24 ∧ hs < 2 ^ 32)) :
+    (hB : ack = true ∨ (ts < 2 ^ 32 ∧ ms < 2 ^ 32 ∧ ws < 2 ^ 31 ∧ 2 ^ 14 ≤ fs ∧ fs < 2 ^ 24 ∧ hs < 2 ^ 32)) :
     ∃ sv, Spec.body Gen.c_FrameSettings (serialize 0 pad (.settings ack ts push ms ws fs hs)).1
         (serialize 0 pad (.settings ack ts push ms ws fs hs)).2 = .ok (.settings sv) ∧
       sameBody (.settings sv) (WFrame.want (.settings ack ts push ms ws fs hs)) = true := by
@@ -126,7 +126,7 @@ theorem body_settings (ack push : Bool) (ts ms ws fs hs pad : Nat)
     · simp [serialize, addFlag, hasFlag, Gen.c_FlagAck, Gen.c_FrameSettings, Spec.body, Spec.bitAt, Spec.pairsOf, Spec.firstBad]
     · simp [sameBody, WFrame.want, Spec.settingsVal]
   | false =>
-    rcases hB with h | ⟨h1, h2, h3, h4, h5, h6, h7, h8, h9⟩
+    rcases hB with h | ⟨h2, h4, h6, h7, h8, h9⟩
     · cases h
     · have hfs : fs ≠ 0 := by omega
       have hfs32 : fs < 2 ^ 32 := by omega
@@ -137,17 +137,18 @@ theorem body_settings (ack push : Bool) (ts ms ws fs hs pad : Nat)
       have e5 := u32_toBe32 fs hfs32
       have e6 := u32_toBe32 hs h9
       have e2 : Spec.u32 0 0 0 1 = 1 := by decide
+      have e0 : Spec.u32 0 0 0 0 = 0 := by decide
       have b4 : ¬ (2147483647 < ws) := by omega
       have b5 : ¬ (fs < 16384 ∨ 16777215 < fs) := by omega
       refine ⟨Spec.settingsVal false (Spec.pairsOf (serialize 0 pad (.settings false ts push ms ws fs hs)).2), ?_, ?_⟩
       · by_cases hh : hs = 0 <;> cases push <;>
-          simp [serialize, settingsEncode, Gen.c_FrameSettings, Gen.c_HeaderTableSize, Gen.c_EnablePush,
-            Gen.c_MaxConcurrentStreams, Gen.c_MaxWindowSize, Gen.c_MaxFrameSize, Gen.c_MaxHeaderListSize, h1, h3, h5, hfs, hh,
-            toBe16, toBe32, Spec.body, Spec.bitAt, Spec.pairsOf, Spec.firstBad, Spec.pairBad, e1, e2, e3, e4, e5, e6, b4, b5]
+          simp [serialize, settingsEncode, settingsPair, Gen.c_FrameSettings, Gen.c_HeaderTableSize, Gen.c_EnablePush,
+            Gen.c_MaxConcurrentStreams, Gen.c_MaxWindowSize, Gen.c_MaxFrameSize, Gen.c_MaxHeaderListSize, hfs, hh,
+            toBe16, toBe32, Spec.body, Spec.bitAt, Spec.pairsOf, Spec.firstBad, Spec.pairBad, e0, e1, e2, e3, e4, e5, e6, b4, b5]
       · by_cases hh : hs = 0 <;> cases push <;>
-          simp [serialize, settingsEncode, Gen.c_FrameSettings, Gen.c_HeaderTableSize, Gen.c_EnablePush,
-            Gen.c_MaxConcurrentStreams, Gen.c_MaxWindowSize, Gen.c_MaxFrameSize, Gen.c_MaxHeaderListSize, h1, h3, h5, hfs, hh,
-            toBe16, toBe32, Spec.pairsOf, e1, e2, e3, e4, e5, e6, sameBody, WFrame.want, Spec.settingsVal, Spec.applyPair]
+          simp [serialize, settingsEncode, settingsPair, Gen.c_FrameSettings, Gen.c_HeaderTableSize, Gen.c_EnablePush,
+            Gen.c_MaxConcurrentStreams, Gen.c_MaxWindowSize, Gen.c_MaxFrameSize, Gen.c_MaxHeaderListSize, hfs, hh,
+            toBe16, toBe32, Spec.pairsOf, e0, e1, e2, e3, e4, e5, e6, sameBody, WFrame.want, Spec.settingsVal, Spec.applyPair]
 
 
 theorem typ_le (w : WFrame) : w.typ ≤ 9 := by
@@ -301,24 +302,10 @@ def IsPushPromise : WFrame → Prop
   | .pushPromise _ => True
   | _ => False
 
-/-- known finding F35: a SETTINGS value of zero where zero is meaningful -/
-def HasZeroSetting : WFrame → Prop
-  | .settings ack ts _ ms ws _ _ => ack = false ∧ (ts = 0 ∨ ms = 0 ∨ ws = 0)
-  | _ => False
-
-theorem buildable_of (w : WFrame) (hr : InRange w) (h14 : ¬ IsPushPromise w) (h47 : ¬ HasZeroSetting w) : Buildable w := by
+theorem buildable_of (w : WFrame) (hr : InRange w) (h14 : ¬ IsPushPromise w) : Buildable w := by
   cases w with
   | pushPromise h => exact absurd trivial h14
-  | settings ack ts push ms ws fs hs =>
-    simp only [InRange, HasZeroSetting, Buildable] at *
-    rcases hr with h | h
-    · exact Or.inl h
-    · cases ack with
-      | true => exact Or.inl rfl
-      | false =>
-        right
-        simp at h47
-        omega
+  | settings ack ts push ms ws fs hs => exact hr
   | data => exact hr
   | headers => exact hr
   | priority => exact hr
